@@ -270,7 +270,7 @@ def u_shapes(c):
 @unit("C08", "client.max_body_size", [(M, "HTTP1Connection._read_body"), (M, "_GzipMessageDelegate.data_received")])
 def u_limit(c):
     from pyvc.standin import httpclient as HC
-    limit = c.choose("max_body_size", [10, 1000])
+    limit = c.choose("max_body_size", [10, 1000, 0])     # 0 is a limit (nothing but an empty body), not "unset"
     over = c.choose("body", ["limit", "limit+1"])
     framing = c.choose("framing", ["content-length", "chunked", "close-delimited", "gzip-decompressed", "gzip-compressed-small-decompressed-large", "gzip-bomb-watched-by-a-streaming-callback"])
     seg = c.choose("segmentation", ["all-at-once", "two-halves"])
@@ -279,8 +279,8 @@ def u_limit(c):
     if framing == "content-length":
         data = hdr(b"Content-Length: %d" % n) + body
     elif framing == "chunked":
-        k = max(1, n // 2)
-        data = hdr(b"Transfer-Encoding: chunked") + b"%x\r\n" % k + body[:k] + b"\r\n" + (b"%x\r\n" % (n - k) + body[k:] + b"\r\n" if n - k else b"") + b"0\r\n\r\n"
+        k = max(1, n // 2) if n else 0
+        data = hdr(b"Transfer-Encoding: chunked") + (b"%x\r\n" % k + body[:k] + b"\r\n" if k else b"") + (b"%x\r\n" % (n - k) + body[k:] + b"\r\n" if n - k else b"") + b"0\r\n\r\n"
     elif framing == "close-delimited":
         data = hdr() + body
     else:
